@@ -69,8 +69,13 @@ def gen(rng, tier):
         elif r < 0.11:
             method = 'other'
             mal = 'method'
-        yield {'t1': _split(rng, f1), 't2': _split(rng, f2), 'method': method, 'mal': mal,
-               'alpha': a1 + '/' + a2}
+        case = {'t1': _split(rng, f1), 't2': _split(rng, f2), 'method': method, 'mal': mal, 'alpha': a1 + '/' + a2}
+        r2 = rng.random()
+        if r2 < 0.08:
+            case['empties'] = [[rng.randint(0, 3) for _ in range(rng.randint(0, 2))], [rng.randint(0, 3) for _ in range(rng.randint(0, 2))]]
+        elif r2 < 0.16:
+            case['layout'] = 'alt'
+        yield case
     for _ in range(G.budget(30) if tier == 'quick' else 300):      # narrow integer types, many index-like states
         k1, k2 = rng.choice([(11, 12), (12, 11), (12, 12), (12, 12), (10, 12)])
         base = rng.choice([0, 1])
@@ -127,6 +132,19 @@ def impl(case):
     d1, d2 = (case.get('dtypes') or ['int64', 'int64'])
     t1 = [np.array(t, dtype=DTYPES[d1]) for t in case['t1']]
     t2 = [np.array(t, dtype=DTYPES[d2]) for t in case['t2']]
+    if case.get('empties'):
+        # zero-length pieces in one or both splittings; strided views of the frames
+        e1, e2 = case['empties']
+        for pos in sorted(e1):
+            t1.insert(min(pos, len(t1)), np.array([], dtype=DTYPES[d1]))
+        for pos in sorted(e2):
+            t2.insert(min(pos, len(t2)), np.array([], dtype=DTYPES[d2]))
+    if case.get('layout') == 'alt':
+        def strided(a):
+            buf = np.zeros(2 * len(a), dtype=a.dtype)
+            buf[::2] = a
+            return buf[::2]
+        t1, t2 = [strided(a) for a in t1], [strided(a) for a in t2]
     if case.get('repeat'):
         # shared objects: earlier comparisons (also with swapped roles) must not change later ones
         o1, o2 = mh.StateTraj(t1), mh.StateTraj(t2)
